@@ -1,0 +1,14 @@
+// Add-only export shim (build tag verif): the fixed Huffman coders built at
+// package initialisation, one by one, for the generated-table obligations of
+// the verification harness (harness/cmd/gentables).
+
+//go:build verif
+// +build verif
+
+package flate
+
+// VerifFixedDecoders returns (*prefix.Decoder).VerifDump of decLit and decDist.
+func VerifFixedDecoders() (lit, dist []uint32) { return decLit.VerifDump(), decDist.VerifDump() }
+
+// VerifFixedEncoders returns (*prefix.Encoder).VerifDump of encLit and encDist.
+func VerifFixedEncoders() (lit, dist []uint32) { return encLit.VerifDump(), encDist.VerifDump() }
